@@ -10,6 +10,9 @@ the simulation object's public properties between steps, so |dE|/kT ranges far b
 Oracle: returned decision == (u < min(1, A)) with u predicted by a shadow of the
 simulation's generator and log A from the statement's formulas; no exception; exactly one
 uniform draw consumed (or none when A >= 1); pooled acceptance frequency per A-bin.
+Cells are also left-handed; isobaric / isotension simulations also get their moves through the drivers' constructors
+with molecular and frozen labels; settings are also assigned as numpy scalars and 0-d arrays; the Hamiltonian oracle
+takes its reference kinetic energy from a recorder around the refresh, not from the context.
 """
 from __future__ import annotations
 
